@@ -62,5 +62,18 @@ if __name__ == "__main__":
                 k, v = a.split("=", 1)
                 fx[k] = v
         merge(pid, fx)
+    elif cmd == "fix":
+        kf = os.path.join(ROOT, "known_findings.json")
+        d = json.load(open(kf))
+        for a in sys.argv[3:]:
+            k, v = a.split("=", 1)
+            for f in d["findings"]:
+                if f["id"] == k:
+                    f["kind"] = "fixed"
+                    f["commit"] = v
+                    if not f.get("description", "").startswith("fixed:"):
+                        f["description"] = f"fixed: property={f['property']} {v} " + f.get("description", "")
+                    print("marked fixed:", k)
+        json.dump(d, open(kf, "w"), indent=1)
     elif cmd == "seeds":
         seeds(pid, [int(x) for x in sys.argv[3:]] or [0, 1, 2, 12345])
